@@ -550,6 +550,11 @@ def run_cases(run: lib.Run, audit: dict, scale: int = 1):
                                           "spec": "adding a rule whose action/target does not match changed the decision"})
 
 
+WHOLE_OBLIGATION = ("C03_whole: Generated.Src.compile_decide (the current source text of compile(policy) + the closure decide(env) it returns) vs the "
+                    "model's compiledDecide with compilerDefault := the literal of the source — set delegation and the prologue (default algorithm, "
+                    ".lower() raising) for every dict policy; see the header of Run/C03_whole.lean for what is proved of the index / bucket part")
+
+
 def check(run: lib.Run, audit: dict) -> int:
     run.rule = ("exhaustive: every single rule over {4 action lists × 4 types × 3 ids × 3 attrs × 2 effects} × 3 algorithms × 3 requests; all ordered "
                 "pairs over a 1/11 (quick) / 1/5 (thorough) subsample; every sequence of ≤3 rules inside each of the four tiers over {permit,deny} × "
@@ -569,10 +574,19 @@ def check(run: lib.Run, audit: dict) -> int:
                    "discharged" if ok_tr else (str(tr.get("extraction_failed")) if isinstance(tr, dict) and "extraction_failed" in tr else detail_tr))
     ok_py, detail_py = translated_vs_python(run, 400 if run.tier == "quick" else 4000) if ok_tr else (False, "skipped: the translation obligation is not discharged")
     run.obligation("translated source evaluates like the Python functions (translator + Model/PyLib.lean vs CPython)", ok_py or not ok_tr, detail_py)
-    run_cases(run, audit, scale=run.boost * (1 if ok_tr else 2))
+    # `compile` ITSELF and the closure it returns, as they are written NOW, translated whole (plugin src_translation_compile) and proved
+    # equal to the model's `compiledDecide` (per-run obligation; it uses the theorems of the obligations about the callees)
+    wc = audit["facts"].get("translated_compile")
+    wc_failed = isinstance(wc, dict) and "extraction_failed" in wc
+    ok_wh, detail_wh = lib.run_obligation("C03_whole", deps=["C03_translated", "C05_translated", "C02_whole"])
+    run.obligation(WHOLE_OBLIGATION, ok_wh, "discharged" if ok_wh else (str(wc["extraction_failed"]) if wc_failed else detail_wh))
+    ok_wpy, detail_wpy = (False, "skipped: compile could not be translated") if wc_failed or not isinstance(wc, dict) else translated_whole_vs_python(run)
+    run.obligation("compile translated whole evaluates like the real compile(policy)(env) (pytolean_closure + Model/PyIdent.lean vs CPython)",
+                   ok_wpy or wc_failed or not isinstance(wc, dict), detail_wpy)
+    run_cases(run, audit, scale=run.boost * (1 if ok_tr and ok_wh else 2))
     overlap_check(run, (120 if run.tier == "quick" else 1500) * run.boost)
     violations = []
-    if (run.disagreements or not ok_tr) and not run.spec_failures:
+    if (run.disagreements or not ok_tr or not ok_wh) and not run.spec_failures:
         run_cases(run, audit, scale=4)
     if run.spec_failures:
         path = run.write_replay("spec", {"what": "C03 violated on the real engine", "case": run.spec_failures[0], "count": len(run.spec_failures)})
@@ -582,6 +596,14 @@ def check(run: lib.Run, audit: dict) -> int:
                                                "compiler's helper functions (or match_actions / _is_applicable) is not proved equal to the model functions "
                                                "that theorems Rbacx.categorize_eq_tier / Rbacx.C03.* are about; the widened search found no failing input",
                                                "translation": tr, "lean": detail_tr[-1500:], "first_disagreement": run.disagreements[:1]})
+        violations.append((path, False))
+    elif not ok_wh:
+        path = run.write_replay("obligation", {"what": "per-run obligation Rbacx/Run/C03_whole.lean no longer checks: the current source text of compile() and "
+                                               "the closure it returns (Generated.Src.compile_decide) is not proved equal to the model's compiledDecide, "
+                                               "which theorems Rbacx.C03.c03_compiled_eq_reference / c03_irrelevant_rule / c03_set_delegates are about; "
+                                               "the widened search found no failing input",
+                                               "translation": {k: v for k, v in wc.items() if k != "lean"} if isinstance(wc, dict) else wc,
+                                               "lean": detail_wh[-1500:], "first_disagreement": run.disagreements[:1]})
         violations.append((path, False))
     elif run.disagreements:
         path = run.write_replay("correspondence", {"what": "model Rbacx.compiledDecide/guardEval and the engine disagree on the decision; theorems Rbacx.C03.* no "
